@@ -48,7 +48,7 @@ type both struct {
 func (p *both) ID() string        { return p.id }
 func (p *both) Data() interface{} { return p.d }
 
-var eventTypes = []string{"test-event", "a b", "quote\"type", "<tag>&", "ünï ☃", "x"}
+var eventTypes = []string{"test-event", "a b", "quote\"type", "<tag>&", "ünï ☃", "x", " audit", "audit ", "audit\n", "AUDIT"}
 
 var seenIDs = map[string]string{}
 
@@ -138,7 +138,8 @@ func TestC18CloudEvents(t *testing.T) {
 		et := rapid.SampledFrom(eventTypes).Draw(t, "eventType")
 		listed := rapid.Bool().Draw(t, "listed")
 		pred := rapid.SampledFrom([]string{"nil", "nil", "true", "false", "error", "true+error"}).Draw(t, "predicate")
-		created := time.Date(2026, 5, 17, 20, 34, 58, rapid.IntRange(0, 999999999).Draw(t, "nanos"), time.FixedZone("x", rapid.SampledFrom([]int{0, 3600, -5 * 3600}).Draw(t, "zone")))
+		// any instant a time.Time can hold in years 1..9999, not only those an int64 of nanoseconds since 1970 can
+		created := time.Date(rapid.SampledFrom([]int{2026, 2026, 2026, 1969, 1677, 1600, 2262, 2263, 3000, 9999, 1}).Draw(t, "year"), 5, 17, 20, 34, 58, rapid.IntRange(0, 999999999).Draw(t, "nanos"), time.FixedZone("x", rapid.SampledFrom([]int{0, 3600, -5 * 3600}).Draw(t, "zone")))
 		desc := fmt.Sprintf("payload=%s(%s) format=%q source=%s schema=%s signer=%s sigTail=%q listed=%v type=%q pred=%s", kind, d, format, source, schema, signer, sigTail, listed, et, pred)
 
 		dataVal := jsonval.Build(d)
@@ -218,7 +219,7 @@ func TestC18CloudEvents(t *testing.T) {
 			}
 		}
 		// the list is a list of event types, not of patterns
-		f.SignEventTypes = []string{"some-other-type", et + "x", "X" + et, "*", "?", "[a-z]*", et + "*"}
+		f.SignEventTypes = []string{"some-other-type", et + "x", "X" + et, "*", "?", "[a-z]*", et + "*", " " + et, et + " ", "\t" + et + "\n", strings.ToUpper(et) + "\x00"}
 		if len(et) > 1 {
 			f.SignEventTypes = append(f.SignEventTypes, et[:1]+"*", "*"+et[len(et)-1:])
 		}
